@@ -1,11 +1,11 @@
 (* Extraction of the C10 models.  Directives: ExtrOcamlBasic + ExtrOcamlNativeString only; Z, N,
    positive, Q and nat stay the extracted inductive types. *)
 From Coq Require Import Extraction ExtrOcamlBasic ExtrOcamlNativeString ZArith QArith.
-From NV Require Import Crash.Outcome Crash.NumOps Crash.Index Crash.Lexer Crash.Span Crash.Defects Crash.MergeDispatch.
+From NV Require Import Crash.Outcome Crash.NumOps Crash.Index Crash.Lexer Crash.Span Crash.Defects Crash.MergeDispatch Crash.TomlFloats.
 Extraction "c10_model.ml"
   div_exact mod_exact pow_exact Qred
   substring op_array_slice op_array_at op_array_gen_len find_all_index find_all_index_fixed
   run init next_step
   from_lexical from_lexical_fixed split_spans external_error_span json_error_span toml_error_span
-  pretty_print_cap pretty_print_cap_fixed select_value
+  pretty_print_cap pretty_print_cap_fixed select_value from_doc
   Z.add Z.mul Z.opp Z.div_eucl.
